@@ -101,7 +101,7 @@ def _explore_chunk(arg):
         if status == "held":
             out["held"] += 1
             out["goals"] |= p.goals
-            if p.queries:
+            if p.queries or getattr(w, "nchecks", 0):
                 out["checked"] += 1
             if len(out["samples"]) < 2 or rnd.random() < 0.01:
                 try:
@@ -201,7 +201,8 @@ def explore(hidx, workers, deadline, max_paths, seed, chunk_paths=150, chunk_tim
 # is free the parent lends its own slot to the child and waits (depth-first), which bounds the
 # number of live processes by (workers x depth).
 class Forker:
-    def __init__(self, sem, wfd, deadline, tmpdir):
+    def __init__(self, sem, wfd, deadline, tmpdir, counter=None):
+        self.counter = counter
         self.sem = sem
         self.wfd = wfd
         self.deadline = deadline
@@ -304,10 +305,15 @@ def _explorer(h, forker, seed):
         rec["dec"] = len(p.decisions) - state["dec0"]
         rec["depth"] = len(p.decisions)
         rec["goals"] = sorted(p.goals)
-        rec["checked"] = 1 if p.queries else 0
+        rec["checked"] = 1 if (p.queries or getattr(w, "nchecks", 0)) else 0
         rnd = random.Random((seed * 1000003) ^ os.getpid())
+        early = False
+        if forker.counter is not None:
+            with forker.counter.get_lock():
+                forker.counter.value += 1
+                early = forker.counter.value <= 12
         if rec["status"] == "held":
-            if rnd.random() < 0.02:
+            if early or rnd.random() < 0.02:
                 try:
                     rec["sample"] = w.sample()
                 except Signal:
@@ -337,6 +343,7 @@ def explore_fork(hidx, workers, deadline, max_paths, seed):
         pass
     ctx = mp.get_context("fork")
     sem = ctx.Semaphore(max(0, workers - 1))
+    counter = ctx.Value("i", 0)
     rfd, wfd = os.pipe()
     tmpdir = tempfile.mkdtemp(prefix="verif_run_")
     sys.stdout.flush()
@@ -346,7 +353,7 @@ def explore_fork(hidx, workers, deadline, max_paths, seed):
         try:
             os.setpgid(0, 0)
             os.close(rfd)
-            _explorer(h, Forker(sem, wfd, deadline, tmpdir), seed)
+            _explorer(h, Forker(sem, wfd, deadline, tmpdir, counter), seed)
         finally:
             os._exit(1)
     os.close(wfd)
@@ -447,13 +454,20 @@ def replay_violation(h, v):
     try:
         h.fn(w)
     except ViolationFound as got:
-        return got.label == v["label"], got.label, got.detail
+        # the bracketed message-kind tag is computed from a model and may name another member of
+        # the same equivalence class natively; the assertion text is what must agree
+        return _untag(got.label) == _untag(v["label"]), got.label, got.detail
     except Signal as s:
         return False, f"signal {type(s).__name__}: {s}", None
     except Exception as exc:
         return False, f"harness exception {type(exc).__name__}: {exc}", \
             "".join(traceback.format_exception(exc))[-2000:]
     return False, "no violation natively", None
+
+
+def _untag(label):
+    import re
+    return re.sub(r"\[[^\]]*\]", "[]", label)
 
 
 def replay_sample(h, s):
@@ -662,9 +676,11 @@ def evidence(prop, tier, seed, results, validated, ss, wall, verdict, known_seen
         "evaluations": paths,
         "distinct_nontrivial": sum(r.checked for r in results),
         "rule": "one evaluation = one feasible path of the real code explored to its end under a "
-                "distinct decision list (solver-pruned); non-trivial = the path reached at least "
-                "one property query that was discharged by the solver (paths that end in a pure "
-                "reject/no-op without a query are not counted)",
+                "distinct decision list (every branch decided by the solver, infeasible sides "
+                "pruned); non-trivial = a held path on which at least one property assertion was "
+                "evaluated (discharged by a solver query, or decided structurally on that path); "
+                "paths that end before any assertion (e.g. lines rejected by the decoder in a "
+                "harness that only looks at accepted lines) are not counted",
         "exhaustive": all(r.exhausted for r in results) and not any(r.n_inconclusive for r in results),
         "explanation": level_text,
         "harnesses": [{
